@@ -74,7 +74,7 @@ theorem step_evinv {s s' : St} (h : Step s s') (hinv : ∀ c, EvInv s.terminate 
   | nodeBreak _ _ => exact hinv c'
   | nodeToWait _ _ => exact hinv c'
   | nodeFinish _ _ _ => exact hinv c'
-  | nodeCloseChan c h1 h2 => (onchan c; irrelevant)
+  | nodeCloseChan c h1 h2 h3 => (onchan c; irrelevant)
   | newChan c h1 h2 h3 h4 => (onchan c; irrelevant)
   | newChanTerm c h1 h2 h3 h4 h5 h6 h7 =>
     onchan c
@@ -210,7 +210,7 @@ theorem step_faninv {s s' : St} (h : Step s s') (hinv : ∀ c, FanInv (s.chans c
   | nodeBreak _ _ => exact hinv c'
   | nodeToWait _ _ => exact hinv c'
   | nodeFinish _ _ _ => exact hinv c'
-  | nodeCloseChan c h1 h2 => (onchanF c; fanirr)
+  | nodeCloseChan c h1 h2 h3 => (onchanF c; fanirr)
   | newChan c h1 h2 h3 h4 => (onchanF c; fanirr)
   | newChanTerm c h1 h2 h3 h4 h5 h6 h7 =>
     onchanF c
@@ -361,7 +361,7 @@ theorem step_own {s s' : St} (h : Step s s') (hg : Glob s) (hinv : ∀ c, Own (s
   | nodeBreak _ _ => exact hinv c'
   | nodeToWait _ _ => exact hinv c'
   | nodeFinish _ _ _ => exact hinv c'
-  | nodeCloseChan c h1 h2 => (onchanO c; ownirr)
+  | nodeCloseChan c h1 h2 h3 => (onchanO c; ownirr)
   | newChan c h1 h2 h3 h4 => (onchanO c; ownstep)
   | newChanTerm c h1 h2 h3 h4 h5 h6 h7 => (onchanO c; ownstep)
   | pBegin c ev h1 h2 h3 => (onchanO c; ownstep)
@@ -488,7 +488,7 @@ theorem step_glob {s s' : St} (h : Step s s') (hg : Glob s) : Glob s' := by
         · exact Or.inr (h3 c hm)
         · exact Or.inr hf
     · intro _; exact ⟨h2, h3⟩
-  | nodeCloseChan c h1 h2 => gsame hg c
+  | nodeCloseChan c h1 h2 h3 => gsame hg c
   | newChan c h1 h2 h3 h4 =>
     obtain ⟨g1, g2, g3, g4, g5, g6⟩ := hg
     refine ⟨?_, ?_, g3, g4, ?_, ?_⟩
@@ -660,7 +660,7 @@ theorem step_wantinv (inputs : Cid → List RdRes) {s s' : St} (h : Step s s') (
   | nodeBreak _ _ => exact hinv c'
   | nodeToWait _ _ => exact hinv c'
   | nodeFinish _ _ _ => exact hinv c'
-  | nodeCloseChan c h1 h2 => (onchanW c; wirr)
+  | nodeCloseChan c h1 h2 h3 => (onchanW c; wirr)
   | newChan c h1 h2 h3 h4 => (onchanW c; wstep)
   | newChanTerm c h1 h2 h3 h4 h5 h6 h7 => (onchanW c; wstep)
   | pBegin c ev h1 h2 h3 => (onchanW c; wirr)
@@ -775,7 +775,7 @@ theorem step_log {s s' : St} (h : Step s s') (hinv : ∀ c, logOf s.log c = (s.c
   | nodeBreak _ _ => exact hinv c'
   | nodeToWait _ _ => exact hinv c'
   | nodeFinish _ _ _ => exact hinv c'
-  | nodeCloseChan c h1 h2 => (refine log_same s c _ ?_ hinv c'; exact fun _ => rfl)
+  | nodeCloseChan c h1 h2 h3 => (refine log_same s c _ ?_ hinv c'; exact fun _ => rfl)
   | newChan c h1 h2 h3 h4 => (dsimp only []; refine log_same s c _ ?_ hinv c'; exact fun _ => rfl)
   | newChanTerm c h1 h2 h3 h4 h5 h6 h7 => (refine log_same s c _ ?_ hinv c'; exact fun _ => rfl)
   | pBegin c ev h1 h2 h3 => (refine log_same s c _ ?_ hinv c'; exact fun _ => rfl)
